@@ -214,6 +214,8 @@ macro_rules! parse_impl {
                     let sv: &'static str = leak(c["value"].as_str().unwrap_or(""));
                     match k {
                         "iat" => { if let Ok(c_) = IssuedAtClaim::try_from(sv) { $p.check_claim(c_); } }
+                        "exp" => { if let Ok(c_) = ExpirationClaim::try_from(sv) { $p.check_claim(c_); } }
+                        "nbf" => { if let Ok(c_) = NotBeforeClaim::try_from(sv) { $p.check_claim(c_); } }
                         "iss" => { $p.check_claim(IssuerClaim::from(sv)); }
                         "sub" => { $p.check_claim(SubjectClaim::from(sv)); }
                         "aud" => { $p.check_claim(AudienceClaim::from(sv)); }
